@@ -159,14 +159,14 @@ CLAIMED.update({
 })
 CLAIMED.update({
     "C11": {
-        "text": "Thin: proof of the per-node step of the counting recursion only (card_templ<intcard>::_compute, real body with the real helper "
+        "text": "Thin: proofs of per-node steps only. Counting recursion (card_templ<intcard>::_compute, real body with the real helper "
                 "class, recursive calls used through the contract being enforced): the empty set counts 0, below the last variable 1, a skipped "
                 "level multiplies the count below it by the level size except a skipped primed level of an identity-reduced relation, a node's "
-                "count is the sum over every listed child exactly once, a compute-table hit returns the cached count. Of the enumeration, one step: "
+                "count is the sum over every listed child exactly once, a compute-table hit returns the cached count. Of the enumeration, the per-variable steps of the search for the first assignment: "
                 "iterator_templ<EdgeOp_none>::first_pri (real body) on a primed variable that the mask fixes - a node at the level is followed along the fixed "
                 "value (for an 'unchanged' position: the unprimed value), a skipped level of a fully-reduced forest matches every value, a skipped level "
-                "otherwise (identity pattern) matches exactly x' == x whatever the mask says about x; and first_unpr on an unprimed variable the mask fixes - the value is reported once below the last variable, a node at the level is read at the fixed value, a skipped level keeps the node, a set continues with the next unprimed and a relation with the primed variable; and the scans of first_pri / first_unpr over a free variable - the cursor node is the stored node, a redundant node or (identity pattern) the single entry x' == x, entries are tried in ascending position, none skipped, the scan stops at the first with an assignment below and reports its index. The other iterator steps (next, random_*, the "
-                "scans over free variables, edge-valued instances), node/edge counts and the real / arbitrary-precision result types are NOT covered.",
+                "otherwise (identity pattern) matches exactly x' == x whatever the mask says about x; and first_unpr on an unprimed variable the mask fixes - the value is reported once below the last variable, a node at the level is read at the fixed value, a skipped level keeps the node, a set continues with the next unprimed and a relation with the primed variable; and the scans of first_pri / first_unpr over a free variable - the cursor node is the stored node, a redundant node or (identity pattern) the single entry x' == x, entries are tried in ascending position, none skipped, the scan stops at the first with an assignment below and reports its index. The advance to the next assignment (iterator_templ::next), random_*, the "
+                "edge-valued iterator instances, the composition of the steps (induction over the diagram), node/edge counts and the real / arbitrary-precision result types are NOT covered.",
         "note": COMMON_NOTE + " The skipped-level product (a 64-bit multiplication) is checked in the thorough tier only; the quick tier covers every other path. "
                 "That the step contracts add up to 'the count of the function' is an induction over the diagram that is not machine-checked.",
         "design_ref": "DESIGN.md A.1, A.2b",
